@@ -29,6 +29,25 @@ fn main() {
     if args.is_empty() {
         usage();
     }
+    if args[0] == "--emit-corpus" {
+        // seed corpora for the libFuzzer targets: valid spec-encoded frames (decoder targets: 3-byte header = whole delivery)
+        let Some(dir) = args.get(1) else { usage() };
+        let dir = std::path::Path::new(dir);
+        for (target, ver) in [("dec_v5", 5u8), ("dec_v3", 3), ("rt5", 5), ("sniff", 5)] {
+            let d = dir.join(target);
+            std::fs::create_dir_all(&d).expect("corpus dir");
+            let frames = if ver == 5 { props::c02::corpus5(7, 150) } else { props::c02::corpus3(7, 150) };
+            for (i, f) in frames.iter().enumerate() {
+                let mut b = Vec::new();
+                if target.starts_with("dec_") {
+                    b.extend_from_slice(&[0, 0, 0]);
+                }
+                b.extend_from_slice(f);
+                std::fs::write(d.join(format!("seed-{i:03}")), b).expect("corpus file");
+            }
+        }
+        std::process::exit(0);
+    }
     let id = args[0].to_uppercase();
     let Some(entry) = props::REGISTRY.iter().find(|e| e.id == id) else {
         eprintln!("unknown property {id}");
